@@ -87,6 +87,9 @@ pub struct CryptDict {
     #[pdf(key="StmF")]
     default_crypt_filter: Option<Name>,
 
+    #[pdf(key="StrF")]
+    string_crypt_filter: Option<Name>,
+
     #[pdf(key="EncryptMetadata", default="true")]
     encrypt_metadata: bool,
 
@@ -133,7 +136,10 @@ pub struct CryptFilter {
 pub struct Decoder {
     key_size: usize,
     key: Vec<u8>, // maximum length
+    /// The method of the crypt filter for streams (/StmF)
     method: CryptMethod,
+    /// The method of the crypt filter for strings (/StrF)
+    string_method: CryptMethod,
     /// A reference to the /Encrypt dictionary, if it is in an indirect
     /// object. The strings in this dictionary are not encrypted, so
     /// decryption must be skipped when accessing them.
@@ -157,10 +163,17 @@ impl Decoder {
     }
 
     pub fn new(key: Vec<u8>, key_size: usize, method: CryptMethod, encrypt_metadata: bool) -> Decoder {
+        Decoder::with_methods(key, key_size, method, method, encrypt_metadata)
+    }
+
+    /// A decoder whose streams and strings are decrypted by different methods
+    /// (`CryptMethod::None` leaves the data as it is: the `Identity` crypt filter).
+    pub fn with_methods(key: Vec<u8>, key_size: usize, method: CryptMethod, string_method: CryptMethod, encrypt_metadata: bool) -> Decoder {
         Decoder {
             key_size,
             key,
             method,
+            string_method,
             encrypt_indirect_object: None,
             metadata_indirect_object: None,
             encrypt_metadata,
@@ -295,36 +308,48 @@ impl Decoder {
             Ok(digest.to_vec())
         }
 
-        let (key_bits, method) = match dict.v {
-            1 => (40, CryptMethod::V2),
+        // The crypt filter named by /StmF or /StrF: the key length it states (in bits) and its method.
+        // An absent entry and the name Identity leave the data as it is (7.6.5, Table 20).
+        fn crypt_filter(dict: &CryptDict, name: Option<&Name>) -> Result<(Option<u32>, CryptMethod)> {
+            let name = match name {
+                Some(name) if name.as_str() != "Identity" => name,
+                _ => return Ok((None, CryptMethod::None)),
+            };
+            let filter = dict
+                .crypt_filters
+                .get(name.as_str())
+                .ok_or_else(|| other!("missing crypt filter entry {:?}", name))?;
+
+            let filter_bits = match filter.length {
+                Some(n) => n.checked_mul(8).ok_or_else(|| other!("invalid key length {}", n))?,
+                None => dict.bits,
+            };
+            match filter.method {
+                CryptMethod::V2 | CryptMethod::AESV2 => Ok((
+                    Some(filter_bits),
+                    filter.method,
+                )),
+                CryptMethod::AESV3 if dict.v == 5 => Ok((
+                    Some(filter_bits),
+                    filter.method,
+                )),
+                m => err!(other!("unimplemented crypt method {:?}", m)),
+            }
+        }
+
+        let (key_bits, method, string_method) = match dict.v {
+            1 => (40, CryptMethod::V2, CryptMethod::V2),
             2 => {
                 if dict.bits % 8 != 0 {
                     err!(other!("invalid key length {}", dict.bits))
                 } else {
-                    (dict.bits, CryptMethod::V2)
+                    (dict.bits, CryptMethod::V2, CryptMethod::V2)
                 }
             },
             4 ..= 6 => {
-                let default = dict
-                    .crypt_filters
-                    .get(try_opt!(dict.default_crypt_filter.as_ref()).as_str())
-                    .ok_or_else(|| other!("missing crypt filter entry {:?}", dict.default_crypt_filter.as_ref()))?;
-
-                let filter_bits = match default.length {
-                    Some(n) => n.checked_mul(8).ok_or_else(|| other!("invalid key length {}", n))?,
-                    None => dict.bits,
-                };
-                match default.method {
-                    CryptMethod::V2 | CryptMethod::AESV2 => (
-                        filter_bits,
-                        default.method,
-                    ),
-                    CryptMethod::AESV3 if dict.v == 5 => (
-                        filter_bits,
-                        default.method,
-                    ),
-                    m => err!(other!("unimplemented crypt method {:?}", m)),
-                }
+                let (stream_bits, method) = crypt_filter(dict, dict.default_crypt_filter.as_ref())?;
+                let (string_bits, string_method) = crypt_filter(dict, dict.string_crypt_filter.as_ref())?;
+                (stream_bits.or(string_bits).unwrap_or(dict.bits), method, string_method)
             }
             v => err!(other!("unsupported V value {}", v)),
         };
@@ -342,7 +367,7 @@ impl Decoder {
             let key = key_derivation_user_password_rc4(level, key_size, dict, id, pass);
 
             if check_password_rc4(level, dict.u.as_bytes(), id, &key[..std::cmp::min(key_size, 16)]) {
-                let decoder = Decoder::new(key, key_size, method, encrypt_metadata);
+                let decoder = Decoder::with_methods(key, key_size, method, string_method, encrypt_metadata);
                 Ok(decoder)
             } else {
                 let password_wrap_key = key_derivation_owner_password_rc4(level, key_size, pass)?;
@@ -366,7 +391,7 @@ impl Decoder {
                 );
 
                 if check_password_rc4(level, dict.u.as_bytes(), id, &key[..key_size]) {
-                    let decoder = Decoder::new(key, key_size, method, encrypt_metadata);
+                    let decoder = Decoder::with_methods(key, key_size, method, string_method, encrypt_metadata);
                     Ok(decoder)
                 } else {
                     Err(PdfError::InvalidPassword)
@@ -480,7 +505,7 @@ impl Decoder {
                 err!(other!("the file encryption key unwrapped from UE/OE should have a length of 32 bytes, not {}", key_slice.len()));
             }
 
-            let decoder = Decoder::new(key_slice.into(),  32, method, encrypt_metadata);
+            let decoder = Decoder::with_methods(key_slice.into(), 32, method, string_method, encrypt_metadata);
             Ok(decoder)
         } else {
             err!(format!("unsupported V value {}", level).into())
@@ -551,7 +576,17 @@ impl Decoder {
         hash
     }
 
+    /// Decrypts the data of a stream of the object `id` (crypt filter /StmF).
     pub fn decrypt<'buf>(&self, id: PlainRef, data: &'buf mut [u8]) -> Result<&'buf [u8]> {
+        self.decrypt_with(self.method, id, data)
+    }
+
+    /// Decrypts a string of the object `id` (crypt filter /StrF).
+    pub fn decrypt_string<'buf>(&self, id: PlainRef, data: &'buf mut [u8]) -> Result<&'buf [u8]> {
+        self.decrypt_with(self.string_method, id, data)
+    }
+
+    fn decrypt_with<'buf>(&self, method: CryptMethod, id: PlainRef, data: &'buf mut [u8]) -> Result<&'buf [u8]> {
         if self.encrypt_indirect_object == Some(id) {
             // Strings inside the /Encrypt dictionary are not encrypted
             return Ok(data);
@@ -570,8 +605,9 @@ impl Decoder {
         // Algorithm 1
         // a) we have those already
 
-        match self.method {
-            CryptMethod::None => unreachable!(),
+        match method {
+            // the Identity crypt filter
+            CryptMethod::None => Ok(data),
             CryptMethod::V2 => {
                 // b)
                 let mut key = [0; 16 + 5];
@@ -630,6 +666,7 @@ impl fmt::Debug for Decoder {
         f.debug_struct("Decoder")
             .field("key", &self.key())
             .field("method", &self.method)
+            .field("string_method", &self.string_method)
             .finish()
     }
 }
